@@ -94,6 +94,7 @@ pub fn worker_digests() -> i32 {
 }
 
 pub fn run(tier: &str) -> i32 {
+    let rep_t0 = std::time::Instant::now();
     let rep = Report::new("C16", tier, "model_checking");
     let thorough = rep.thorough();
     let maxlen = if thorough { 5 } else { 4 };
@@ -157,6 +158,7 @@ pub fn run(tier: &str) -> i32 {
     rep.set("traces_validated_against_impl", json!((seqs.len() * inits.len()) as u64));
     rep.force_sample(json!({"kind":"history","ops":seqs[seqs.len() / 3].iter().map(|o| o.to_json(&alpha.contents)).collect::<Vec<_>>()}));
 
+    if std::env::var("VERIF_VERBOSE").is_ok() { println!("  t={:.1}s before // ---- (b) insertion orders", rep_t0.elapsed().as_secs_f64()); }
     // ---- (b) insertion orders
     let ntiles = if thorough { 7 } else { 6 };
     let ids: Vec<u64> = vec![0, 1, 2, 3, 9, 10, 1 << 35][..ntiles].to_vec();
@@ -183,6 +185,7 @@ pub fn run(tier: &str) -> i32 {
     }
     rep.count("insertion_orders", perms.len() as u64);
 
+    if std::env::var("VERIF_VERBOSE").is_ok() { println!("  t={:.1}s before // ---- (b2) metadata", rep_t0.elapsed().as_secs_f64()); }
     // ---- (b2) metadata: insertion order of keys (top level and nested) and remove/re-insert detours
     {
         let keys = ["name", "attribution", "bounds", "zz", "a"];
@@ -228,6 +231,7 @@ pub fn run(tier: &str) -> i32 {
         }
     }
 
+    if std::env::var("VERIF_VERBOSE").is_ok() { println!("  t={:.1}s before // ---- (c) provenance", rep_t0.elapsed().as_secs_f64()); }
     // ---- (c) provenance
     let nids = if thorough { 6 } else { 5 };
     let mut items = Vec::new();
@@ -241,6 +245,10 @@ pub fn run(tier: &str) -> i32 {
             let mut out = Vec::new();
             for api in APIS {
                 if !thorough && api == Api::Async && i % 4 != 0 {
+                    continue;
+                }
+                // brotli quality 11 dominates the cost: quick keeps it to every 4th map
+                if !thorough && l.settings.internal == Compression::Brotli && i % 4 != 1 {
                     continue;
                 }
                 let imgs: Vec<Result<Vec<u8>, String>> = PROVS.iter().map(|p| write_with_provenance(l, *p, api)).collect();
@@ -260,6 +268,7 @@ pub fn run(tier: &str) -> i32 {
         rep.violation("provenance-dependent-bytes", format!("[{} {}] {d}", api.name(), cname(items[i].settings.internal)), json!({"kind":"provenance","api":api.name(),"archive":logical_to_json(&items[i])}));
     }
 
+    if std::env::var("VERIF_VERBOSE").is_ok() { println!("  t={:.1}s before // ---- (d) separate OS processes", rep_t0.elapsed().as_secs_f64()); }
     // ---- (d) separate OS processes
     let nproc = if thorough { 16 } else { 4 };
     let exe = std::env::current_exe().unwrap();
@@ -298,6 +307,7 @@ pub fn run(tier: &str) -> i32 {
         rep.violation("process-write-fails", "a worker could not write an archive of the process corpus", json!({"kind":"processes"}));
     }
 
+    if std::env::var("VERIF_VERBOSE").is_ok() { println!("  t={:.1}s before // ---- (e) rewrite of just-read archives", rep_t0.elapsed().as_secs_f64()); }
     // ---- (e) rewrite of just-read archives
     for c in corpus(thorough) {
         let fam = c.family;
@@ -329,6 +339,7 @@ pub fn run(tier: &str) -> i32 {
             rep.violation(format!("rewrite-changes-bytes/{fam}"), format!("[{} {}] {d}", api.name(), cname(c.items[i].settings.internal)), json!({"kind":"rewrite","api":api.name(),"archive":logical_to_json(&c.items[i])}));
         }
     }
+    if std::env::var("VERIF_VERBOSE").is_ok() { println!("  t={:.1}s before // foreign archives: one normalising rewrite", rep_t0.elapsed().as_secs_f64()); }
     // foreign archives: one normalising rewrite, then stable
     let specs: Vec<foreign::Spec> = foreign::product(false).into_iter().filter(|s| s.n >= 2 && s.gap != 1).step_by(if thorough { 1 } else { 5 }).collect();
     let bad: Vec<(usize, Api, String)> = specs
